@@ -19,7 +19,11 @@ RULE = ('overload families biased to >=2 simultaneously matching candidates '
         'more specific than two mutually incomparable ones, mixed no_kwargs, '
         'mixed laziness) called with lattice instances; every permutation of '
         'every layer (<=4 candidates/layer, else 24 sampled) plus permuted '
-        'registration order in plain Contexts; non-trivial = >=2 candidates '
+        'registration order in plain Contexts; the nearest layer spread '
+        'over 2 and 3 member contexts of a MultiContext in every member '
+        'order; members built from assembled definitions, declared Python '
+        'signatures or one shared callable typed per registration; '
+        'non-trivial = >=2 candidates '
         'match in the winning layer and >=2 distinct permutations were run; '
         'distinct = distinct (family, call)')
 ASSUMPTIONS = [
@@ -48,6 +52,39 @@ def outcome(family, call, orders=None, ordered=True, reg_order=None):
     ctx, defs = resfam.build_chain(family, base, orders, ordered, reg_order)
     text, binds = resfam.render_call(call)
     c = ctx.create_child_context()
+    for k, v in binds.items():
+        c['$' + k] = v
+    try:
+        r = _engine()(text).evaluate(context=c)
+        return ['ok', json.loads(json.dumps(r, default=_jd))]
+    except Exception as e:   # noqa
+        return ['exc', type(e).__name__]
+
+
+def outcome_multi(family, call, split, perm):
+    """the nearest layer is a MultiContext whose member contexts hold the
+    layer's overloads between them (split: member index per overload of
+    layer 0, perm: order of the members); the merged layer is the same set
+    of overloads whatever the split and the order"""
+    from yaql.language import contexts
+    base = common.std_context()
+    deeper = [dict(d, layer=d['layer'] - 1) for d in family['defs']
+              if d['layer'] >= 1]
+    low = base
+    if deeper:
+        low, _ = resfam.build_chain(
+            dict(family, layers=family.get('layers', 1) - 1, defs=deeper),
+            base, ordered=False)
+    near = [d for d in family['defs'] if d['layer'] == 0]
+    members = []
+    for m in sorted(set(split)):
+        sub = [d for d, k in zip(near, split) if k == m]
+        ctx, _ = resfam.build_chain(dict(family, layers=1, defs=sub), low,
+                                    ordered=False)
+        members.append(ctx)
+    multi = contexts.MultiContext([members[i] for i in perm])
+    text, binds = resfam.render_call(call)
+    c = multi.create_child_context()
     for k, v in binds.items():
         c['$' + k] = v
     try:
@@ -112,6 +149,18 @@ def check_family(run, case):
     for r in regs:
         results.append(({'registration': r},
                         outcome(family, call, None, False, r)))
+    # the nearest layer spread over the members of a MultiContext
+    near = [d for d in family['defs'] if d['layer'] == 0]
+    if len(near) >= 2:
+        for nm in (2, 3):
+            if nm > len(near):
+                continue
+            split = [(i + case.get('split', 0)) % nm
+                     for i in range(len(near))]
+            for perm in itertools.permutations(range(nm)):
+                results.append(({'multi-context members': list(perm),
+                                 'split': split},
+                                outcome_multi(family, call, split, perm)))
     m = matches_per_layer(family, call)
     multi = any(v >= 2 for v in m.values())
     shape = 'defs=%d' % n
@@ -260,9 +309,10 @@ def biased_family(draw):
         call['args'] = call['args'][:-1] + [{'raw': '1 => 2'}]
     fam = {'layers': layers, 'defs': defs}
     fam['decl'] = draw(st.sampled_from(['assembled', 'signature',
-                                        'shared-callable',
+                                        'shared-callable', 'shared-payload',
                                         'signature-reregistered']))
-    return {'kind': 'family', 'shape': shape, 'family': fam, 'call': call}
+    return {'kind': 'family', 'shape': shape, 'family': fam, 'call': call,
+            'split': draw(st.integers(0, 2))}
 
 
 def _shard(run, n, shard):
